@@ -28,6 +28,7 @@ type modCase struct {
 	Extra string     `json:"extra"` // extra statements appended to the main file (probe programs)
 	Sel   map[string][]string `json:"sel"` // selective import lists for main: module -> exported names
 	Names map[string]string   `json:"names"` // module symbol -> the name written in 导入“…” (segments separated by -); default: modName
+	Repeat int                `json:"repeat"` // C11: execute the main file this many times (fresh interpreter each time) and report the distinct outcomes
 }
 
 func (c *modCase) nameOf(m string) string {
@@ -155,6 +156,25 @@ func handleModule(raw json.RawMessage) interface{} {
 	mainPath := filepath.Join(dir, "主.zn")
 	os.WriteFile(mainPath, []byte(sb.String()), 0644)
 	o := zn.RunFile(mainPath, nil)
+	if c.Repeat > 1 {
+		seen := map[string]int{}
+		var firsts []map[string]interface{}
+		for i := 0; i < c.Repeat; i++ {
+			oi := zn.RunFile(mainPath, nil)
+			rec := map[string]interface{}{"obs": oi.Obs, "val": oi.Val, "display": oi.Display, "code": oi.Code, "msg": oi.Msg, "text": oi.Text}
+			b, _ := json.Marshal(rec)
+			if _, ok := seen[string(b)]; !ok {
+				firsts = append(firsts, rec)
+			}
+			seen[string(b)]++
+		}
+		var counts []int
+		for _, f := range firsts {
+			b, _ := json.Marshal(f)
+			counts = append(counts, seen[string(b)])
+		}
+		return map[string]interface{}{"obs": "done", "distinct": len(firsts), "records": firsts, "counts": counts, "main": sb.String()}
+	}
 	return map[string]interface{}{"obs": o.Obs, "display": o.Display, "code": o.Code, "msg": lastLine(o.Msg), "val": o.Val, "main": sb.String()}
 }
 
